@@ -71,6 +71,20 @@ pub fn run_one(sc: &Value) -> Value {
             }
         }
         native["smt"] = json!({"root0": word_json(&Word::from(root0)), "root": word_json(&Word::from(smt.root())), "results": olds});
+        // a dishonest advice map: every leaf hash is answered with the preimage of another leaf
+        if sc["smt_forge"].as_bool().unwrap_or(false) {
+            let mut keys: Vec<RpoDigest> = vec![];
+            for (k, _) in map.iter() {
+                if !keys.contains(k) {
+                    keys.push(*k);
+                }
+            }
+            if keys.len() >= 2 {
+                let vals: Vec<Vec<Felt>> = keys.iter().map(|k| map.iter().find(|(k2, _)| k2 == k).unwrap().1.clone()).collect();
+                map = keys.iter().enumerate().map(|(i, k)| (*k, vals[(i + 1) % vals.len()].clone())).collect();
+                native["smt_forged_leaves"] = json!(keys.len());
+            }
+        }
         advice = advice.with_merkle_store(store).with_map(map);
     }
     // sponge absorption from a given hasher state (capacity first): rate overwritten by each block of 8 elements
